@@ -58,9 +58,12 @@ pub struct Case {
     #[serde(default)]
     pub ctor: u8,
     /// matrix back end for train_test_split: 0 = DenseMatrix, 1 = ndarray (row-major), 2 = ndarray (column-major
-    /// memory layout), 3 = nalgebra DMatrix
+    /// memory layout), 3 = nalgebra DMatrix, 4 = ndarray with negative strides (x and y), 5 = ndarray with stride 2
     #[serde(default)]
     pub backend: u8,
+    /// what the splitter party's n_splits() reports when it is not the number of folds it hands out
+    #[serde(default)]
+    pub n_splits_report: Option<usize>,
 }
 
 pub struct C16;
@@ -108,6 +111,20 @@ fn split_on_backend(backend: u8, single: bool, n: usize, p: usize, ts: f32, shuf
             match backend {
                 1 => split_generic::<$t, Array2<$t>>(&Array2::from_shape_fn((n, p), |(i, j)| c(i, j)), &Array1::from_shape_fn(n, |i| g(i) as $t), ts, shuffle),
                 2 => split_generic::<$t, Array2<$t>>(&Array2::from_shape_fn((n, p).f(), |(i, j)| c(i, j)), &Array1::from_shape_fn(n, |i| g(i) as $t), ts, shuffle),
+                // owned arrays with negative strides: built back to front, then every axis reversed
+                4 => split_generic::<$t, Array2<$t>>(
+                    &Array2::from_shape_fn((n, p), |(i, j)| c(n - 1 - i, p - 1 - j)).slice_move(ndarray::s![..;-1, ..;-1]),
+                    &Array1::from_shape_fn(n, |i| g(n - 1 - i) as $t).slice_move(ndarray::s![..;-1]),
+                    ts,
+                    shuffle,
+                ),
+                // owned arrays with a stride of two (every second row / element of a buffer twice as long)
+                5 => split_generic::<$t, Array2<$t>>(
+                    &Array2::from_shape_fn((2 * n, p), |(i, j)| if i % 2 == 0 { c(i / 2, j) } else { -7.0 }).slice_move(ndarray::s![..;2, ..]),
+                    &Array1::from_shape_fn(2 * n, |i| if i % 2 == 0 { g(i / 2) as $t } else { -7.0 }).slice_move(ndarray::s![..;2]),
+                    ts,
+                    shuffle,
+                ),
                 _ => split_generic::<$t, DMatrix<$t>>(&DMatrix::from_fn(n, p, |i, j| c(i, j)), &RowDVector::from_fn(n, |_, i| g(i) as $t), ts, shuffle),
             }
         }};
@@ -188,7 +205,7 @@ fn ids_of_y<T: RealNumber>(y: &[T]) -> Result<Vec<usize>, String> {
 /// Seam S3b: a splitter party. Either the real `KFold` or explicit folds handed out verbatim.
 enum Splitter {
     Real(KFold),
-    Custom(Vec<(Vec<usize>, Vec<usize>)>),
+    Custom(Vec<(Vec<usize>, Vec<usize>)>, Option<usize>),
 }
 
 impl BaseKFold for Splitter {
@@ -196,13 +213,15 @@ impl BaseKFold for Splitter {
     fn split<T: RealNumber, M: smartcore::linalg::Matrix<T>>(&self, x: &M) -> Self::Output {
         match self {
             Splitter::Real(k) => Box::new(k.split(x)),
-            Splitter::Custom(f) => Box::new(f.clone().into_iter()),
+            Splitter::Custom(f, _) => Box::new(f.clone().into_iter()),
         }
     }
     fn n_splits(&self) -> usize {
         match self {
             Splitter::Real(k) => k.n_splits(),
-            Splitter::Custom(f) => f.len(),
+            // n_splits(&self) cannot see the data: a splitter may only report a nominal number (leave-one-out,
+            // repeated k-fold); the folds that count are the ones split() hands out
+            Splitter::Custom(f, reported) => reported.unwrap_or(f.len()),
         }
     }
 }
@@ -489,6 +508,7 @@ fn forced_small() -> &'static Small {
                             custom_folds: None,
                             ctor: (pi % 3) as u8,
                             backend: 0,
+                            n_splits_report: None,
                         });
                     }
                 }
@@ -508,7 +528,8 @@ fn forced_small() -> &'static Small {
                         f32m: false,
                         custom_folds: None,
                         ctor: 0,
-                        backend: ((pi as usize + nt) % 4) as u8,
+                        backend: ((pi as usize + nt) % 6) as u8,
+                        n_splits_report: None,
                     });
                 }
             }
@@ -718,13 +739,13 @@ impl C16 {
                     let (xtr, xte, ytr, yte) = train_test_split(&x, &y, ts, case.shuffle);
                     Ok((ids_of(&xtr)?, ids_of(&xte)?, ids_of_y(&ytr)?, ids_of_y(&yte)?))
                 });
-                rep.count(match case.backend { 0 => "steps.split-dense", 1 => "steps.split-ndarray-row-major", 2 => "steps.split-ndarray-column-major", _ => "steps.split-nalgebra" }, 1);
+                rep.count(match case.backend { 0 => "steps.split-dense", 1 => "steps.split-ndarray-row-major", 2 => "steps.split-ndarray-column-major", 3 => "steps.split-nalgebra", 4 => "steps.split-ndarray-negative-strides", _ => "steps.split-ndarray-stride-2" }, 1);
                 match res {
                     Err(msg) => rep.fail("panic", "train-test-split", format!("train_test_split(n={}, test_size={}) panicked: {}", n, ts, msg)),
-                    Ok(Err(e)) => rep.fail("row-corrupt", "train-test-split", format!("train_test_split(n={}, test_size={}, backend={}): {}", n, ts, ["DenseMatrix", "ndarray", "ndarray(column-major)", "nalgebra"][(case.backend % 4) as usize], e)),
+                    Ok(Err(e)) => rep.fail("row-corrupt", "train-test-split", format!("train_test_split(n={}, test_size={}, backend={}): {}", n, ts, ["DenseMatrix", "ndarray", "ndarray(column-major)", "nalgebra", "ndarray(negative strides)", "ndarray(stride 2)"][(case.backend % 6) as usize], e)),
                     Ok(Ok((xtr, xte, ytr, yte))) => {
                         d.usizes(&xtr).usizes(&xte).usizes(&ytr).usizes(&yte);
-                        let ctx = format!("train_test_split(n={}, test_size={}, shuffle={}, f32={}, backend={})", n, ts, case.shuffle, f32m, ["DenseMatrix", "ndarray", "ndarray(column-major)", "nalgebra"][(case.backend % 4) as usize]);
+                        let ctx = format!("train_test_split(n={}, test_size={}, shuffle={}, f32={}, backend={})", n, ts, case.shuffle, f32m, ["DenseMatrix", "ndarray", "ndarray(column-major)", "nalgebra", "ndarray(negative strides)", "ndarray(stride 2)"][(case.backend % 6) as usize]);
                         if xtr != ytr || xte != yte {
                             rep.fail("xy-misaligned", "train-test-split", format!("{}: x rows {:?}/{:?} came with targets of rows {:?}/{:?}", ctx, clip(&xtr), clip(&xte), clip(&ytr), clip(&yte)));
                         }
@@ -757,7 +778,7 @@ impl C16 {
                 let is_cv = case.op == Op::CrossValidate;
                 let hist = Rc::new(RefCell::new(Hist::default()));
                 let cvk = match &case.custom_folds {
-                    Some(f) => Splitter::Custom(f.clone()),
+                    Some(f) => Splitter::Custom(f.clone(), case.n_splits_report),
                     None => Splitter::Real(make_kfold(k, case.shuffle, case.ctor)),
                 };
                 let k = case.custom_folds.as_ref().map(|f| f.len()).unwrap_or(k);
@@ -1058,12 +1079,12 @@ impl Property for C16 {
         let mut r = Xo::fork(seed, "workload");
         let tape_seed = Xo::fork(seed, "schedule").u64();
         let big = index % 5 == 3; // every fifth run of a shuffled batch: n up to 300
-        let bk = Xo::fork(seed, "backend").below(4) as u8; // matrix back end of the train_test_split runs
+        let bk = Xo::fork(seed, "backend").below(6) as u8; // matrix back end of the train_test_split runs
         match batch {
             "noshuffle-exhaustive" => {
                 let (n, k) = noshuffle_pairs()[(index / 3) as usize];
                 let op = [Op::KFold, Op::CrossValPredict, Op::CrossValidate][(index % 3) as usize].clone();
-                Case { op, n, k, p: 1 + (index % 3) as usize, shuffle: false, fail_at: None, tape: TapeSpec::prng(tape_seed), kind: "noshuffle".into(), f32m: (n + k) % 4 == 0, custom_folds: None, ctor: ((n * 3 + k) % 3) as u8, backend: 0 }
+                Case { op, n, k, p: 1 + (index % 3) as usize, shuffle: false, fail_at: None, tape: TapeSpec::prng(tape_seed), kind: "noshuffle".into(), f32m: (n + k) % 4 == 0, custom_folds: None, ctor: ((n * 3 + k) % 3) as u8, backend: 0, n_splits_report: None }
             }
             "split-noshuffle" => {
                 let f32m = index % 2 == 1;
@@ -1074,7 +1095,7 @@ impl Property for C16 {
                 while ((n as f32) * ts) as usize == 0 {
                     n += 7;
                 }
-                Case { op: Op::Split { test_size: ts, f32m }, n, k: 2, p: 1 + (index % 4) as usize, shuffle: false, fail_at: None, tape: TapeSpec::prng(tape_seed), kind: "noshuffle".into(), f32m: false, custom_folds: None, ctor: 0, backend: bk }
+                Case { op: Op::Split { test_size: ts, f32m }, n, k: 2, p: 1 + (index % 4) as usize, shuffle: false, fail_at: None, tape: TapeSpec::prng(tape_seed), kind: "noshuffle".into(), f32m: false, custom_folds: None, ctor: 0, backend: bk, n_splits_report: None }
             }
             "forced-perm-exhaustive" => forced_small().cases[index as usize].clone(),
             "split-boundary" => {
@@ -1092,25 +1113,25 @@ impl Property for C16 {
                 while ((n2 as f32) * ts) as usize == 0 {
                     n2 += 1; // precondition of the property: floor(n * test_size) >= 1
                 }
-                Case { op: Op::Split { test_size: ts, f32m: index % 2 == 1 }, n: n2, k: 2, p: 1 + (index % 3) as usize, shuffle: index % 4 < 2, fail_at: None, tape: TapeSpec::prng(tape_seed), kind: "prng".into(), f32m: false, custom_folds: None, ctor: 0, backend: bk }
+                Case { op: Op::Split { test_size: ts, f32m: index % 2 == 1 }, n: n2, k: 2, p: 1 + (index % 3) as usize, shuffle: index % 4 < 2, fail_at: None, tape: TapeSpec::prng(tape_seed), kind: "prng".into(), f32m: false, custom_folds: None, ctor: 0, backend: bk, n_splits_report: None }
             }
             "split-huge" => {
                 let n = if index % 3 == 2 { (1usize << 25) + r.usize_in(1, 64) } else { (1usize << 24) + r.usize_in(1, 64) };
                 let ts = *r.pick(&[0.75f32, 0.3, 0.1, 0.9, 0.5, 0.33333334]);
-                Case { op: Op::Split { test_size: ts, f32m: false }, n, k: 2, p: 1, shuffle: false, fail_at: None, tape: TapeSpec::prng(tape_seed), kind: "noshuffle".into(), f32m: false, custom_folds: None, ctor: 0, backend: 0 }
+                Case { op: Op::Split { test_size: ts, f32m: false }, n, k: 2, p: 1, shuffle: false, fail_at: None, tape: TapeSpec::prng(tape_seed), kind: "noshuffle".into(), f32m: false, custom_folds: None, ctor: 0, backend: 0, n_splits_report: None }
             }
             "kfold-many-folds" => {
                 let k = *r.pick(&[65_537usize, 65_536, 65_538, 70_001]);
                 let k = if index == 0 { 65_537 } else { k };
                 let n = k + *r.pick(&[0usize, 0, 1, 5]);
-                Case { op: Op::KFoldHead { folds: 300 }, n, k, p: 1, shuffle: false, fail_at: None, tape: TapeSpec::prng(tape_seed), kind: "noshuffle".into(), f32m: false, custom_folds: None, ctor: (index % 3) as u8, backend: 0 }
+                Case { op: Op::KFoldHead { folds: 300 }, n, k, p: 1, shuffle: false, fail_at: None, tape: TapeSpec::prng(tape_seed), kind: "noshuffle".into(), f32m: false, custom_folds: None, ctor: (index % 3) as u8, backend: 0, n_splits_report: None }
             }
             "split-large" => {
                 // train_test_split has no upper bound on n in the property: a few thousand rows, shuffled and not
                 let n = r.usize_in(1000, 20000);
                 let ts = if r.chance(0.5) { *r.pick(&TEST_SIZES) } else { r.range(0.0005, 1.0) as f32 };
                 let ts = if ((n as f32) * ts) as usize == 0 { 0.5 } else { ts };
-                Case { op: Op::Split { test_size: ts, f32m: false }, n, k: 2, p: r.usize_in(1, 3), shuffle: r.chance(0.6), fail_at: None, tape: TapeSpec::prng(tape_seed), kind: "prng".into(), f32m: false, custom_folds: None, ctor: 0, backend: bk }
+                Case { op: Op::Split { test_size: ts, f32m: false }, n, k: 2, p: r.usize_in(1, 3), shuffle: r.chance(0.6), fail_at: None, tape: TapeSpec::prng(tape_seed), kind: "prng".into(), f32m: false, custom_folds: None, ctor: 0, backend: bk, n_splits_report: None }
             }
             _ => {
                 let hi = if big { 300 } else { 64 };
@@ -1135,7 +1156,7 @@ impl Property for C16 {
                     5..=7 => Op::CrossValPredict,
                     _ => Op::CrossValidate,
                 };
-                let mut c = Case { op, n, k, p, shuffle: true, fail_at: None, tape: TapeSpec::prng(tape_seed), kind: "prng".into(), f32m: r.chance(0.25), custom_folds: None, ctor: r.below(3) as u8, backend: 0 };
+                let mut c = Case { op, n, k, p, shuffle: true, fail_at: None, tape: TapeSpec::prng(tape_seed), kind: "prng".into(), f32m: r.chance(0.25), custom_folds: None, ctor: r.below(3) as u8, backend: 0, n_splits_report: None };
                 if matches!(c.op, Op::Split { .. }) {
                     c.backend = bk;
                 }
@@ -1200,6 +1221,10 @@ impl Property for C16 {
                             folds = vec![((1..n).collect(), vec![0]), ((0..n - 1).collect(), vec![n - 1])];
                         }
                         c.k = folds.len();
+                        if r.chance(0.3) {
+                            let len = folds.len();
+                            c.n_splits_report = Some(*r.pick(&[len.saturating_sub(1), len + 2, 1, 0, 2 * len]));
+                        }
                         c.custom_folds = Some(folds);
                         c.kind = "splitter-party".into();
                     }
